@@ -50,6 +50,11 @@ def cells(tier):
             for outcome in OUTCOMES:
                 for store in ("up", "down"):
                     out.append(dict(kind=kind, p=2.5, seq=list(seq), outcome=outcome, first="none", store=store))
+    # the schedule's base lies more than a day back (a job created a day ago that no worker has run yet):
+    # day-sized distances take part in the arithmetic
+    for kind in ("mem", "redis", "amqp"):
+        for seq in itertools.product(range(len(DURS)), repeat=2):
+            out.append(dict(kind=kind, p=2.5, seq=list(seq), outcome="ok", first="longpast"))
     # the process east / west of UTC: every pair of durations
     for kind in ("mem", "redis", "amqp"):
         for tz in (9, -5):
@@ -111,6 +116,14 @@ def _execute(cell):
             du = now + timedelta(seconds=1.3 * p)
         elif cell["first"] == "past":
             du = now - timedelta(seconds=5)
+        elif cell["first"] == "longpast":
+            # created a day ago, never run since (no worker was up): enqueued as the broker holds it now
+            p_ = x.world.params(defer_by=p, ts_shift=-(86400 + 7.3), timeout=1000.0, retries=retries)
+            await x.world.broker.enqueue(x.world.key("rec", "tick", "q"), "", p_)
+            info["t0"] = now
+            info["du"] = None
+            info["first_next"] = p_.compute_next_execution_time
+            return
         job = Job("tick", queue="q", id_="rec", deferred_by=timedelta(seconds=p), deferred_until=du,
                   retries=retries, timeout=timedelta(seconds=1000), ttl=timedelta(seconds=500),
                   store_result=bool(cell.get("store")), _connection=x.world.conn)
